@@ -29,11 +29,13 @@ class Tree:
         return out
 
     def descendants_for(self, n):
-        out, todo = [], list(self.kids.get(n, []))
-        while todo:
-            x = todo.pop(0)
-            if x in out:
+        out, seen, todo, i = [], set(), list(self.kids.get(n, [])), 0
+        while i < len(todo):
+            x = todo[i]
+            i += 1
+            if x in seen:
                 continue
+            seen.add(x)
             out.append(x)
             todo += self.kids.get(x, [])
         return out
